@@ -74,6 +74,8 @@ static void cells_json(vj::out& o, int phase) {
         o.key("static").b(c.is_static());
         o.key("nn").i(c.get_nb_of_nodes()).key("nf").i(c.get_nb_of_faces());
         o.key("ready").b(c.is_ready_to_divide()).key("below").b(c.is_below_min_vol());
+        // the same two verdicts from the numbers (the volume the cell reports against the two thresholds)
+        o.key("reached").b(c.get_volume() >= c.get_division_volume()).key("under").b(ct && c.get_volume() < ct->min_vol_);
         {   // connectivity digest (C14: identical meshes in translated runs)
             unsigned long long h = 1469598103934665603ULL;
             for (auto& fc : cell_tester::faces(c)) { unsigned v[4] = {fc.is_used(), 0, 0, 0}; if (fc.is_used()) { auto t = cell_tester::tri(fc); v[1] = t[0]; v[2] = t[1]; v[3] = t[2]; }
@@ -159,7 +161,7 @@ static void couplings_json(vj::out& o) {
     o.key("coupl").obj().key("n").i(n).key("bad_range").i(bad_range).key("bad_lid").i(bad_lid).key("bad_node").i(bad_node).key("nonmutual").i(nonmutual).end_obj();
 }
 
-static void apply_script(long iter) {
+static void apply_script(long iter, int at_phase) {
     const vj::value& S = *g_scn;
     if (!S.has("script")) return;
     auto& L = g_solver->cells();
@@ -169,8 +171,12 @@ static void apply_script(long iter) {
         for (auto& cp : L) {
             if ((long)cp->get_id() != ev["cell"].i()) continue;
             const std::string what = ev["do"].s();
-            if (what == "ready") cell_tester::division_volume(*cp) = cp->get_volume() * 0.5;       // the cell has reached its division volume
-            if (what == "small") cell_tester::cell_type(*cp)->min_vol_ = cp->get_volume() * 4.;  // the cell is below its minimum volume
+            if (what == "ready" && at_phase == 0) cell_tester::division_volume(*cp) = cp->get_volume() * 0.5;       // the cell has reached its division volume
+            if (what == "small" && at_phase == 0) cell_tester::cell_type(*cp)->min_vol_ = cp->get_volume() * 4.;  // the cell is below its minimum volume
+            // thresholds met with equality: a volume that has exactly reached the division volume is eligible, a volume exactly at the
+            // minimum has not fallen below it (set right before the removal phase: the volume does not change in between)
+            if (what == "ready_eq" && at_phase == 0) cell_tester::division_volume(*cp) = cp->get_volume();
+            if (what == "small_eq" && at_phase == 9) cell_tester::cell_type(*cp)->min_vol_ = cp->get_volume();
         }
     }
 }
@@ -193,10 +199,11 @@ static void on_event(const char* ev, const void* obj, long a, long b, long c, do
         const int k = (int)a;
         if (k == 0) {
             if ((long)g_solver->iteration() >= g_max_iter) throw abort_run();
-            apply_script(g_solver->iteration());
+            apply_script(g_solver->iteration(), 0);
         }
         if (k == 6) { g_tvol_before.clear(); for (auto& cp : g_solver->cells()) g_tvol_before[cp->get_id()] = cp->get_target_volume(); }
         if (k == 7) g_time_before = g_solver->time();
+        if (k == 9) apply_script(g_solver->iteration(), 9);
         if (k == 9 && g_solver->iteration() % 50 == 0) expected_stat_rows(g_solver->iteration());
         if (k == 11) expected_stat_rows(g_solver->iteration());
         o.obj().key("e").str("phase").key("k").i(k).key("iter").i(g_solver->iteration()).key("time").str(dstr(g_solver->time()));
